@@ -529,18 +529,21 @@ def run_raire_estimator(case, rng, rec):
         mean = 0.5 + rng.choice((2 / N, 0.01, 0.05, 0.1, 0.25)) / 2
         tw = tl = to = 0
     args = SimpleNamespace(erate1=r1, erate2=r2, rlimit=alpha, reps=None, seed=rng.randrange(10 ** 6))
+    ub = 1 if polling else rng.choice((1, 1, 0.75, 1.25, 2))     # the assorter's upper bound (a parameter of the function)
+    if ub != 1:
+        rec.count("raire_estimator_checked:assorter_bound_not_1")
     with np.errstate(all="ignore"):
-        ok, got = rec.guard("c16.call:raire.sample_estimator.sample_size", raire_ss, mean, tw, tl, to, args, N, 1, polling)
+        ok, got = rec.guard("c16.call:raire.sample_estimator.sample_size", raire_ss, mean, tw, tl, to, args, N, ub, polling)
         if not ok:
             rec.case(case, nontrivial=False)
             return
         margin = 2 * mean - 1
-        u = 2 / (2 - margin)
+        u = 2 / (2 - margin / ub)
         if polling:
             pop = list(Assertion.interleave_values(tl, to, tw, big=1))
             test = NonnegMean(test=NonnegMean.alpha_mart, estim=NonnegMean.shrink_trunc, N=N, u=u, eta=mean)
         else:
-            big, small = 1 / (2 - margin), 0.5 / (2 - margin)
+            big, small = 1 / (2 - margin / ub), 0.5 / (2 - margin / ub)   # (1 - o/u_a)/(2 - v/u_a) as the function documents it, o = 0, 1/2
             pop = [big] * N
             if r1:
                 for j in range(0, N, int(1 / r1)):
